@@ -443,6 +443,123 @@ def enter_preemptions(typed, max_points=40):
     return n, problems
 
 
+def snapshot_preemptions(typed, opname, max_points=45, seen_points=None):
+    """Systematic preemption INSIDE a snapshot operation (one preemption per run): reader B executes `opname` under a line tracer
+    (sys.settrace; the library is not patched) and is paused the first time it reaches a chosen (function, line) of the nutree
+    package; while it is paused, writer A tries to run ONE critical section that adds two nodes (a new kind for typed trees) —
+    it gets in if B does not hold the lock at that point, otherwise it stays blocked and runs after B.  Whatever the point: B's
+    snapshot must hold both new nodes or none (and must not raise).  Returns (points tried, problems)."""
+    import os
+
+    import nutree
+
+    pkg = os.path.dirname(os.path.abspath(nutree.__file__))
+
+    def run_one(pause_at):
+        tree = (TypedTree if typed else Tree)("c18p")
+        kw = {"kind": "k1"} if typed else {}
+        for i in range(3):
+            tree.add(("n", i), **kw).add(("c", i), **kw)
+        other = (TypedTree if typed else Tree)("other")
+        seen = []
+        state = {"paused": False}
+        b_paused, b_go = threading.Event(), threading.Event()
+        res = {}
+
+        def local(frame, event, arg):
+            if event == "line":
+                key = (frame.f_code.co_name, frame.f_lineno)
+                if key not in seen:
+                    seen.append(key)
+                if pause_at is not None and key == pause_at and not state["paused"]:
+                    state["paused"] = True
+                    b_paused.set()
+                    b_go.wait(3)
+            return local
+
+        def tracer(frame, event, arg):
+            if event == "call" and frame.f_code.co_filename.startswith(pkg) and len(seen) < 400:
+                return local
+            return None
+
+        def op():
+            if opname == "save":
+                fp = io.StringIO()
+                tree.save(fp, mapper=lambda n, d: dict(d, v=str(n.data)))
+                return fp.getvalue()
+            if opname == "copy":
+                return [n.name for n in tree.copy()]
+            if opname == "filtered":
+                return [n.name for n in tree.filtered(lambda n: True)]
+            if opname == "copy_to":
+                tree.copy_to(other)
+                return [n.name for n in other]
+            if opname == "to_dict_list":
+                return json.dumps(tree.to_dict_list(mapper=lambda n, d: d))
+            if opname == "to_dotfile":
+                fp = io.StringIO()
+                tree.to_dotfile(fp)
+                return fp.getvalue()
+            raise AssertionError(opname)
+
+        def thread_b():
+            sys.settrace(tracer)
+            try:
+                res["snapshot"] = op()
+                res["b_err"] = None
+            except Exception as e:  # noqa
+                res["snapshot"] = None
+                res["b_err"] = repr(e)
+            finally:
+                sys.settrace(None)
+
+        def thread_a():
+            with tree:
+                tree.add(("S", "first"), before=True, **({"kind": "sentinel-first"} if typed else {}))
+                tree.add(("S", "last"), **({"kind": "sentinel-last"} if typed else {}))
+
+        tb = threading.Thread(target=thread_b, daemon=True)
+        tb.start()
+        if pause_at is None:
+            tb.join(5)
+            return seen, []
+        if not b_paused.wait(1.5):
+            tb.join(3)
+            return seen, []          # the point was not reached in this run
+        ta = threading.Thread(target=thread_a, daemon=True)
+        ta.start()
+        ta.join(0.12)                # A completes its critical section now, or is blocked by B's lock
+        b_go.set()
+        tb.join(5)
+        ta.join(5)
+        problems = []
+        if ta.is_alive() or tb.is_alive():
+            problems.append("threads did not terminate (deadlock)")
+        if res.get("b_err"):
+            problems.append(f"{opname} raised {res['b_err']}")
+        text = json.dumps(res.get("snapshot"), default=str)
+        if ("first" in text) != ("last" in text):
+            problems.append(f"torn snapshot: {opname} saw {'only the last' if 'last' in text else 'only the first'} of two nodes that another thread added in ONE critical section")
+        if typed and res.get("snapshot") is not None and ("sentinel-first" in text) != ("sentinel-last" in text):
+            problems.append(f"torn snapshot: {opname} lists only one of the two kinds that another thread added in ONE critical section")
+        return seen, problems
+
+    points, _ = run_one(None)
+    if seen_points is not None:
+        points = [p_ for p_ in points if p_ not in seen_points]
+    points = points[:max_points]
+    found = []
+    for pt in points:
+        _, problems = run_one(pt)
+        if seen_points is not None:
+            seen_points.add(pt)
+        for p_ in problems:
+            found.append(f"preemption of {opname} at {pt[0]}:{pt[1]}: {p_}")
+        if found:
+            break
+    return len(points), found
+
+
 def run(ctx):
     out = core.Outcome(
         rule="controlled two-thread schedules on the real code: thread A enters `with tree:`, adds a sentinel node, signals B, waits until B has finished or "
@@ -496,6 +613,13 @@ def run(ctx):
                 for p in problems:
                     out.fail(dict(kind="schedule", typed=typed, op=opname, events=events, hold=LONG_HOLD),
                              f"[{'TypedTree' if typed else 'Tree'}.{opname}, critical section of {LONG_HOLD} s] {p}; event order {events}")
+        seen_pts = set()
+        for opname in ["save", "copy", "copy_to", "filtered", "to_dict_list", "to_dotfile"]:
+            n_pts, problems = snapshot_preemptions(typed, opname, max_points=(120 if ctx.thorough else 18), seen_points=seen_pts)
+            out.count((typed, opname, "snapshot-preemptions"), True)
+            out.dist["snapshot_preemption_points"] += n_pts
+            for p in problems[:2]:
+                out.fail(dict(kind="snapshot-preemption", typed=typed, op=opname), f"[{'TypedTree' if typed else 'Tree'}] {p}")
         n_pts, problems = enter_preemptions(typed)
         out.count((typed, "enter-preemptions"), True)
         out.dist["enter_preemption_points"] += n_pts
@@ -521,6 +645,9 @@ def replay(ctx, rp):
     if case.get("kind") == "schedule":
         events, problems = controlled_schedule(case["typed"], case["op"], out, mode=case.get("mode", "sentinel"), wait=case.get("hold", WAIT))
         return dict(events=events, problems=problems, property_holds=not problems)
+    if case.get("kind") == "snapshot-preemption":
+        n, problems = snapshot_preemptions(case["typed"], case["op"], max_points=200)
+        return dict(points=n, problems=problems, property_holds=not problems)
     if case.get("kind") == "enter-preemption":
         n, problems = enter_preemptions(case["typed"])
         return dict(points=n, problems=problems, property_holds=not problems)
